@@ -2,10 +2,14 @@
 (* C20: every script over the outcome alphabet for NumRuns x NumGens, with and without an observer. *)
 EXTENDS Experiment, TLC, Json
 VARIABLE emitted
-Init == /\ \E s \in [1..NumRuns -> [1..NumGens -> Outcomes]], o \in BOOLEAN : InitWith(s, o)
+CONSTANT ObserverCancels     \* TRUE: additionally explore every single notification at which the observer cancels
+Points == { <<"start", r, -1>> : r \in 0 .. NumRuns - 1 } \cup { <<"finish", r, -1>> : r \in 0 .. NumRuns - 1 }
+          \cup { <<"epoch", r, g>> : r \in 0 .. NumRuns - 1, g \in 0 .. NumGens - 1 }
+Init == /\ \E s \in [1..NumRuns -> [1..NumGens -> Outcomes]], o \in BOOLEAN :
+              \E oc \in { {} } \cup (IF ObserverCancels /\ o THEN { {p} : p \in Points } ELSE {}) : InitWith(s, o, oc)
         /\ emitted = FALSE
 Emit == /\ pc = "done" /\ ~emitted /\ emitted' = TRUE /\ UNCHANGED vars
-        /\ PrintT(ToJson([runs |-> NumRuns, gens |-> NumGens, script |-> script, observer |-> observer,
+        /\ PrintT(ToJson([runs |-> NumRuns, gens |-> NumGens, script |-> script, observer |-> observer, ocancel |-> ocancel,
                           evals |-> evals, calls |-> calls, trials |-> trials, final_pops |-> finalPops, err |-> err]))
 MCNext == (Next /\ UNCHANGED emitted) \/ Emit
 Spec == Init /\ [][MCNext]_<<vars, emitted>> /\ WF_<<vars, emitted>>(MCNext)
